@@ -326,6 +326,8 @@ class Harness:
                 from pydsol.core.simulator import ErrorStrategy
                 sim.set_error_strategy({"log": ErrorStrategy.LOG_AND_CONTINUE, "warn": ErrorStrategy.WARN_AND_CONTINUE,
                                         "pause": ErrorStrategy.WARN_AND_PAUSE}[a[1]])
+            elif k == "endrep":
+                sim.end_replication()       # the model ends its replication early, from inside a handler
             elif k == "badstrategy":
                 # a strategy that does not exist must be refused (with or without an explicit log level) and change nothing
                 bogus = {"zero": 0, "name": "pause", "none": None, "big": 99, "neg": -1}[a[1]]
@@ -450,6 +452,12 @@ class Harness:
             sim.add_listener(et, SimListener(spec))
         for sp in self.prog.get("stats", []):
             key, kind = sp["key"], sp["kind"]
+            if kind in ("plaincounter", "plaintally"):
+                # an ordinary (not simulation-aware) statistic the model creates and registers itself as an output statistic
+                st = S.Counter("plain " + key) if kind == "plaincounter" else S.Tally("plain " + key)
+                model.add_output_statistic(key, st)
+                self.stats[key] = st
+                continue
             cls = {"counter": S.SimCounter, "tally": S.SimTally, "wtally": S.SimWeightedTally, "persistent": S.SimPersistent}[kind]
             if sp.get("via") == "event":
                 if key not in self.etypes:
@@ -508,6 +516,8 @@ class Harness:
             self.producers[key].fire(self.etypes[key], payload)
         elif kind == "wtally":
             st.register(a[2], a[3])
+        elif kind in ("plaincounter", "plaintally"):
+            st.register(a[2])
         elif kind == "persistent":
             st.register(float(t), a[2])
         else:
@@ -524,6 +534,17 @@ class Harness:
 
     # ---------------------------------------------------------------- commands and observation
     def subscribe(self):
+        if getattr(self, "oneshot", False):
+            # one-shot listeners (they unsubscribe themselves inside their first notification) subscribed just before the
+            # recorder: every other subscriber still gets every notification
+            from pydsol.core.pubsub import EventListener
+            sim = self.sim
+
+            class OneShot(EventListener):
+                def notify(self, event):
+                    sim.remove_listener(event.event_type, self)
+            for t in self.types:
+                self.sim.add_listener(t, OneShot())
         for t in self.types:
             self.sim.add_listener(t, self.recorder)
 
